@@ -82,6 +82,7 @@ struct Peer {
 	bool raw = false;
 	int frozen = 0;                 // answers to the next `frozen` queries are lost before they reach the peer
 	int flips = 0;                  // re-deliveries with changed case so far (each may add one entry to the server's memories)
+	size_t cache_floor = 0;         // saved_order.size() when the session last lowered its fragment size (answers before that were cut for a larger size)
 };
 
 struct AckEv { uint64_t t; int user, seq, frag; bool redelivery; };
@@ -100,6 +101,7 @@ struct Run {
 	std::string render;
 	bool up = false;
 	// statistics for the non-trivial rules
+	int n_red_after_lower = 0;
 	int n_redeliver = 0, n_red_cache = 0, n_red_qmem = 0, n_red_pending = 0, n_red_lastfrag = 0, n_red_case = 0, n_red_otheraddr = 0;
 	int n_multi3 = 0, n_nreq_ok = 0, n_badfrag = 0, n_dup_twice = 0, n_realsoon = 0, n_tun_via_held = 0, n_long = 0;
 	int n_cache_same = 0, n_trunc = 0, n_lost_answers = 0, n_giveup = 0, n_raw = 0, n_recycled = 0, n_recycled_same_name = 0, n_recycled_data_before_n = 0, n_c2c = 0, n_red_altdomain = 0, n_qr = 0, n_hsreq = 0, n_wrap = 0, n_merge = 0, n_glue = 0, n_infra = 0, n_merge_lost_first = 0, n_excluded_k4 = 0, n_stray = 0, n_late = 0, n_excluded_k5 = 0, n_recycled_moved = 0;
@@ -187,13 +189,18 @@ struct Engine {
 		if (o.t_delivered && o.answers == 0) { r.window = 3; R.n_red_pending++; }
 		else {
 			int rank = 0, rank_kind = 0; bool found = false;
+			size_t pos = 0;
 			for (size_t k = p.saved_order.size(); k-- > 0;) {
 				int qi = p.saved_order[k];
-				if (qi == r.of) { found = true; break; }
+				if (qi == r.of) { found = true; pos = k; break; }
 				rank++;
 				if (R.q[qi].ack.is_ping == o.ack.is_ping) rank_kind++;
 			}
-			if (found && rank < 4 - p.flips) { r.window = 1; R.n_red_cache++; }
+			// answers given before the session lowered its fragment size were cut for the larger size: the server forgets them when the
+			// size goes down (they could only be replayed oversized, C15), so such a repeat is at best in the query-memory window
+			bool forgotten = found && pos < p.cache_floor;
+			if (found && rank < 4 - p.flips && forgotten) R.n_red_after_lower++;
+			if (found && rank < 4 - p.flips && !forgotten) { r.window = 1; R.n_red_cache++; }
 			else if (found && rank_kind < (o.ack.is_ping ? 30 : 15) - p.flips) { r.window = 2; R.n_red_qmem++; }
 		}
 		if (o.ack.is_data && o.ack.last) R.n_red_lastfrag++;
@@ -632,7 +639,7 @@ struct Engine {
 		if (F < 2) {
 			R.n_badfrag++;
 			if (echoed || got != "BADFRAG") R.v.fail("C15", "C15:small-size-accepted", fmt("fragment size %d (< 2) was not rejected with BADFRAG: answer '%s'", F, hexs(Bytes(got.begin(), got.end()), 16).c_str()));
-		} else if (echoed) { p.F = F; R.n_nreq_ok++; }
+		} else if (echoed) { if (F < p.F) p.cache_floor = p.saved_order.size(); p.F = F; R.n_nreq_ok++; }
 		note(fmt("peer%d N %d -> %s", peer_index(p), F, echoed ? "ok" : got.c_str()));
 	}
 
@@ -658,7 +665,7 @@ struct Engine {
 		p.up_queue.clear(); p.up_active = false; p.up_off = 0; p.up_frag = 0;
 		int keep = (int)p.zs.size() - 1;
 		p.st = Stream(); p.st.pkt = keep;          // packets read for the earlier session are not expected in the new one
-		p.prev_acks.clear(); p.flips = 0; p.frozen = 0; p.raw = false; p.saved_order.clear();
+		p.prev_acks.clear(); p.flips = 0; p.frozen = 0; p.raw = false; p.saved_order.clear(); p.cache_floor = 0;
 		R.n_recycled++;
 		// The new session happens to send a ping whose name (user id, acknowledgement fields, cache-miss counter) equals one of the
 		// earlier session's last answered pings: one chance in 65536 for a real client, certain for this one.  Nothing the server
